@@ -52,6 +52,13 @@ Definition read_cell (h : list buffer) (p : option (nat * nat)) (i : nat) : rd :
       end
   end.
 
+(* the LOCATION an accessor returns a reference / pointer to: &a[i] = &a.at(i) = begin() + i = data() + i is cell
+   off + i of the designated buffer (None: a null pointer) *)
+Definition arr_loc (a : arr) (i : nat) : option (nat * nat) :=
+  match a_ptr a with Some (b, off) => Some (b, off + i) | None => None end.
+(* reading through a held reference / pointer in heap h *)
+Definition read_loc (h : list buffer) (l : option (nat * nat)) : rd := read_cell h l 0.
+
 (* operator[] : *(begin() + offset) *)
 Definition arr_index h (a : arr) (i : nat) : rd := read_cell h (a_ptr a) i.
 
@@ -65,6 +72,9 @@ Definition arr_is_null (a : arr) : bool := match a_ptr a with None => true | Som
 
 (* ---------------------------------------------------------------- DataView *)
 Record dview := { d_ptr : option (nat * nat); d_stride : nat }.   (* byte buffer, byte offset *)
+(* &dv[i] : byte i*stride of the wrapped range *)
+Definition dv_loc (d : dview) (i : nat) : option (nat * nat) :=
+  match d_ptr d with Some (b, off) => Some (b, off + i * d_stride d) | None => None end.
 (* operator[](i) : *reinterpret_cast<const T*>(ptr + i*stride), sizeof(T) = sz *)
 Definition dv_index h (d : dview) (sz i : nat) : list rd :=
   map (fun j => read_cell h (d_ptr d) (i * d_stride d + j)) (seq 0 sz).
